@@ -211,14 +211,37 @@ def gen_case(prop, seed, tier):
         feat = {f: False for f in FEATURES}  # plain networks too
     dims = sw.choice([(2, 2, 3), (1, 2, 2, 3), (2,), (1, 2, 3, 4)])
     n_max = sw.choice([4, 6, 8, 9])
-    inputs, output, size_dict = netgen.gen_network(net_rng, n_min=2, n_max=n_max, dims=dims, feat=feat)
+    big = tier == "thorough" and sw.random() < 0.25
+    if big:
+        # deeper bounds in the thorough tier: larger networks, longer histories
+        n_max = sw.choice([10, 12])
+        dims = sw.choice([(2,), (1, 2, 2), (2, 2, 3)])
+    inputs, output, size_dict = netgen.gen_network(net_rng, n_min=2 if not big else 8, n_max=n_max, dims=dims, feat=feat,
+                                                   max_inds=12 if not big else 16, space_cap=2 ** 16 if not big else 2 ** 13)
     n = len(inputs)
-    init_kind = sw.choice(["ssa", "ssa", "ssa", "greedy", "random-greedy", "optimal"]) if n <= 8 else sw.choice(["ssa", "greedy"])
+    init_kind = sw.choice(["ssa", "ssa", "ssa", "nary", "greedy", "random-greedy", "optimal", "hyper-sliced"]) if n <= 8 else sw.choice(["ssa", "nary", "greedy"])
     init = {"kind": init_kind, "seed": net_rng.randrange(2 ** 31),
             "track": [sw.random() < 0.3, sw.random() < 0.3, sw.random() < 0.3]}
     if init_kind == "ssa":
         init["ssa_path"] = netgen.random_ssa_path(net_rng, n)
-    nops = sw.randint(1, 14)
+    elif init_kind == "nary":
+        # a path with some steps contracting 3 tensors at once (from_path fills them in with a sub-search)
+        live = list(range(n))
+        nxt = n
+        path = []
+        while len(live) > 1:
+            k = 3 if (len(live) >= 3 and net_rng.random() < 0.5) else 2
+            pick = net_rng.sample(live, k)
+            for x in pick:
+                live.remove(x)
+            path.append(sorted(pick))
+            live.append(nxt)
+            nxt += 1
+        init["ssa_path"] = path
+        init["sub_optimize"] = sw.choice(["greedy", "optimal", "auto"])
+    elif init_kind == "hyper-sliced":
+        init["target_size"] = sw.choice([2, 4, 8])
+    nops = sw.randint(1, 14) if not big else sw.randint(4, 25)
     # swarm: some runs disable whole op families
     banned = set()
     for fam in (["simulated_anneal", "parallel_temper"], ["subtree_reconfigure", "subtree_reconfigure_forest"],
@@ -320,6 +343,13 @@ def _build_initial(ctg, net, init):
     if kind == "ssa":
         return ctg.ContractionTree.from_path(net.inputs, net.output, net.size_dict,
                                              ssa_path=[tuple(p) for p in init["ssa_path"]], **kw)
+    if kind == "nary":
+        return ctg.ContractionTree.from_path(net.inputs, net.output, net.size_dict,
+                                             ssa_path=[tuple(p) for p in init["ssa_path"]], optimize=init["sub_optimize"], **kw)
+    if kind == "hyper-sliced":
+        opt = ctg.HyperOptimizer(methods=["greedy"], max_repeats=2, optlib="random", parallel=False, seed=init["seed"],
+                                 slicing_opts={"target_size": init["target_size"]})
+        return opt.search(net.inputs, net.output, net.size_dict)
     from cotengra.pathfinders import path_basic
 
     if kind == "greedy":
@@ -382,6 +412,10 @@ def _contract_and_compare(tree, net, copts):
 def oracle_c02(tree, net, copts_list, counters):
     """Run on a snapshot. Returns list of (oracle, detail)."""
     bad = []
+    if tree.multiplicity > 4096:
+        # contracting would take minutes (one core contraction per slice): bounded runs, counted
+        counters["probe:value_check_skipped_too_many_slices"] += 1
+        return bad
     for copts in copts_list:
         snap = copy.deepcopy(tree)
         try:
@@ -589,6 +623,8 @@ def _apply(ctg, op, trees, net, clk, pools, counters, log):
         place(tree.copy())
     # ---- observers (they fill caches on the subject) -------------------------
     elif name == "contract":
+        if tree.multiplicity > 4096:
+            raise OpSkip
         kind, detail = _contract_and_compare(tree, net, op["copts"])
         if kind is not None:
             return "observer-bad", f"{kind}: {detail}"
@@ -614,6 +650,8 @@ def _apply(ctg, op, trees, net, clk, pools, counters, log):
         x = tree.contract_slice(net.arrays, i, **c)
         log.add("slice-shape", list(np.shape(x)))
     elif name == "gen_output_chunks":
+        if tree.multiplicity > 4096:
+            raise OpSkip
         c = _copts(op["copts"])
         n = 0
         for _ in tree.gen_output_chunks(net.arrays, **c):
